@@ -93,6 +93,21 @@ def run(rep, prog, tier):
         generic.rule_name(rep, prog, m, fn)
         generic.rule_def(rep, m, fn)
         generic.rule_sig(rep, prog, m, fn)
+        # the spectra handed in (or handed back unchanged by intersect_masks when the masks already agree) are never written:
+        # a later likelihood of the same data object must see the same entries
+        writes = []
+        for n in own_nodes(fn):
+            tgts = n.targets if isinstance(n, ast.Assign) else [n.target] if isinstance(n, ast.AugAssign) else []
+            for t in tgts:
+                for x in ([t] if not isinstance(t, (ast.Tuple, ast.List)) else t.elts):
+                    root = x
+                    through = False
+                    while isinstance(root, (ast.Subscript, ast.Attribute)):
+                        root, through = root.value, True
+                    if isinstance(root, ast.Name) and root.id in ('model', 'data') and (through or isinstance(n, ast.AugAssign)):
+                        writes.append('`%s` (line %d)' % (ast.unparse(n)[:60], n.lineno))
+        rep.ob('R-PURE', 'Inference.%s arguments' % q, not writes, '; '.join(writes) if writes else 'no store into model / data (entries, mask or attributes)', m.rel, fn.lineno,
+               what='the likelihood functions do not modify the spectra they are given')
     # ---- ll_per_bin ---------------------------------------------------------------------------------------------
     lp = prog.func(INF, 'll_per_bin')
     res = [n for n in lp.body if isinstance(n, ast.Assign) and ast.unparse(n.targets[0]) == 'result']
